@@ -161,10 +161,10 @@ class TermBuild(c11.Build):
 # ------------------------------------------------------------------------------------------------ obligations
 
 
-def roundtrip(world: World, ex, binder_ty: str, program: Adt, pre=()):
-    """encode then decode a Program<binder_ty>; returns (status, detail, decoded or None)"""
-    f_enc = world.fn("Program<T>", "encode", "Encode")
-    f_dec = world.fn("Program<T>", "decode", "Decode<'b>")
+def roundtrip(world: World, ex, binder_ty: str, program: Adt, pre=(), level="Program"):
+    """encode then decode a Program<binder_ty> (or a bare Term<binder_ty>: the non-debug decoder); returns (status, detail, decoded or None)"""
+    f_enc = world.fn(f"{level}<T>", "encode", "Encode")
+    f_dec = world.fn(f"{level}<T>", "decode", "Decode<'b>")
     st = ex.new_state()
     st.pc += list(pre)
     p = ex.alloc(st, program)
@@ -262,6 +262,10 @@ def run(tier: str, seed: int, only=None) -> Result:
                 ver = Tup(tuple(BV(z3.BitVec(fresh("ver"), 64), 64, False) for _ in range(3)))
                 prog = world.adt("Program", None, version=ver, term=t)
                 status, detail, _ = roundtrip(world, ex, binder_ty, prog)
+                if status == "discharged":
+                    status, detail, _ = roundtrip(world, ex, binder_ty, t, level="Term")
+                    if status != "discharged":
+                        detail = "Term::decode (non-debug decoder): " + detail
                 n += 1
                 if status != "discharged":
                     ob.status, ob.detail = status, f"{detail} (shape {shape})"
